@@ -176,6 +176,21 @@ def unit(p, item, tier, seed):
                 blocked = rebuild_with_block(named, bname)
                 check_pair(p, f"operand-uses-internal-names[{n1},{n2},block {bname}]/left", blocked, plain)
                 check_pair(p, f"operand-uses-internal-names[{n1},{n2},block {bname}]/right", plain, blocked)
+        # an operand that holds both a label and the same label under the prefix its copy is given in the miter
+        # (`g` next to `circuit1@g`, an input `a` next to `circuit2@a`, `L@g` with left_name="L"): every copied
+        # gate still gets a fresh name, whatever its own label looks like
+        for pref, kw in (("circuit1", {}), ("circuit2", {}), ("pairwise_xor", {}), ("L", dict(left_name="L", right_name="R")),
+                         ("R", dict(left_name="L", right_name="R"))):
+            plain = circgen.build(["a", "b"], [("u", G.AND, ("a", "b")), ("v", G.XOR, ("u", "a"))], ["v"])
+            twin_g = circgen.build(["a", "b"], [("g", G.AND, ("a", "b")), (pref + "@g", G.XOR, ("g", "a"))], [pref + "@g"])
+            twin_g2 = circgen.build(["a", "b"], [(pref + "@g", G.AND, ("a", "b")), ("g", G.XOR, (pref + "@g", "a"))], ["g"])
+            twin_in = circgen.build(["a", pref + "@a"], [("g", G.AND, ("a", pref + "@a")), ("h", G.XOR, ("g", "a"))], ["h"])
+            twin_out = circgen.build(["a", "b"], [("g", G.OR, ("a", "b")), (pref + "@g", G.AND, ("a", "b"))], ["g", pref + "@g"])
+            two = circgen.build(["a", "b"], [("u", G.OR, ("a", "b")), ("v", G.AND, ("u", "a"))], ["u", "v"])
+            for tag, tw, other in (("gate", twin_g, plain), ("gate-rev", twin_g2, plain), ("input", twin_in, plain), ("outputs", twin_out, two)):
+                check_pair(p, f"label-and-prefixed-twin[{pref},{tag}]/left", tw, other, **kw)
+                check_pair(p, f"label-and-prefixed-twin[{pref},{tag}]/right", other, tw, **kw)
+                check_pair(p, f"label-and-prefixed-twin[{pref},{tag}]/both", tw, tw, **kw)
         m1 = _bm(a, b)
         m2 = _bm(a, circgen.build(["a", "b"], [("g", G.OR, ("a", "b"))], ["g"]))
         check_pair(p, "operands-are-miters/equal", m1, _bm(a, b))
